@@ -129,7 +129,7 @@ func cloneHeader(in http.Header) http.Header {
 func (spCtx *serverPoolContext) prepareRequest(svr *Server, ctx stdcontext.Context, mirror bool) error {
 	req := spCtx.req
 
-	url := svr.URL + req.Path()
+	url := svr.URL + req.Std().URL.EscapedPath()
 	if rq := req.Std().URL.RawQuery; rq != "" {
 		url += "?" + rq
 	}
